@@ -143,8 +143,9 @@ func (d *driver) canConnect() bool {
 	}
 	w := d.n.w
 	reach := w.reachable(d.n.idx, int(d.fid-1))
-	// a retry against an unreachable node after the first failure changes nothing
-	return reach || d.failures == 0
+	// a retry against an unreachable node after the first failure changes nothing,
+	// except that every retry looks at the leader's updates first (new log view)
+	return reach || d.failures == 0 || d.pendingLeaderUpdate()
 }
 
 func (d *driver) canSend() (bool, string) {
